@@ -5,25 +5,30 @@
 set -u
 prop="$1"; tier="${2:-quick}"
 ROOT="${VERIF_ROOT:-/verif}"
+REPO="${VERIF_REPO:-/repo}"
+BIN="${VERIF_HARNESS_BIN:-$ROOT/harness/target/release/oxverif}"
 B="$ROOT/.build"
-mkdir -p "$B/pymod"
+if [ "$REPO" != "/repo" ]; then B="$ROOT/.build/py_$(echo "$REPO" | md5sum | cut -c1-10)"; fi
+PYMOD="$B/pymod_$prop"
+mkdir -p "$PYMOD"
 PY=/usr/bin/python3
 log="$B/pyext_build.log"
 (
   flock 9
-  cd /repo && CARGO_TARGET_DIR="$B/pytarget" PYO3_PYTHON="$PY" cargo build -p oxmpl-py --offline >"$log" 2>&1
+  cd "$REPO" && CARGO_TARGET_DIR="$B/pytarget" PYO3_PYTHON="$PY" cargo build -p oxmpl-py --offline >"$log" 2>&1
 ) 9>"$B/pyext.lock"
 if [ $? -ne 0 ] || [ ! -f "$B/pytarget/debug/liboxmpl_py.so" ]; then
-  echo "INCONCLUSIVE property=$prop the Python extension did not build from /repo (see $log)"
+  echo "INCONCLUSIVE property=$prop the Python extension did not build from $REPO (see $log)"
   grep -E '^error' -A6 "$log" | head -30
   exit 2
 fi
-cp "$B/pytarget/debug/liboxmpl_py.so" "$B/pymod/oxmpl_py.so"
+# atomic install: a concurrent run may have the old file mapped
+cp "$B/pytarget/debug/liboxmpl_py.so" "$PYMOD/.oxmpl_py.so.$$" && mv -f "$PYMOD/.oxmpl_py.so.$$" "$PYMOD/oxmpl_py.so"
 scen="$B/py_${prop}_${tier}_scenarios.json"
 res="$B/py_${prop}_${tier}_results.json"
 rm -f "$res"
-"$ROOT/harness/target/release/oxverif" pygen "$scen" "$tier" || exit 2
-PYTHONPATH="$B/pymod" PYTHONDONTWRITEBYTECODE=1 timeout 3000 "$PY" "$ROOT/py/driver.py" "$scen" "$res" --prop "$prop" >"$B/py_${prop}_stdout.log"
+"$BIN" pygen "$scen" "$tier" || exit 2
+PYTHONPATH="$PYMOD" PYTHONDONTWRITEBYTECODE=1 timeout 3000 "$PY" "$ROOT/py/driver.py" "$scen" "$res" --prop "$prop" >"$B/py_${prop}_stdout.log"
 rc=$?
 if [ $rc -ne 0 ]; then
   echo "INCONCLUSIVE property=$prop python driver exited with $rc"
@@ -45,7 +50,7 @@ print(",".join(out[:12]))
 PYSEL
 )
   vlog="$B/valgrind_C20.log"; rm -f "$vlog"
-  PYTHONMALLOC=malloc PYTHONPATH="$B/pymod" PYTHONDONTWRITEBYTECODE=1 timeout 2400 valgrind --tool=memcheck --error-limit=no --leak-check=full --show-leak-kinds=definite --errors-for-leak-kinds=definite --num-callers=30 --log-file="$vlog" "$PY" "$ROOT/py/driver.py" "$scen" "$B/py_C20_valgrind_results.json" --only-ids "$ids" --jobs 1 --inline >/dev/null 2>&1
+  PYTHONMALLOC=malloc PYTHONPATH="$PYMOD" PYTHONDONTWRITEBYTECODE=1 timeout 2400 valgrind --tool=memcheck --error-limit=no --leak-check=full --show-leak-kinds=definite --errors-for-leak-kinds=definite --num-callers=30 --log-file="$vlog" "$PY" "$ROOT/py/driver.py" "$scen" "$B/py_C20_valgrind_results.json" --only-ids "$ids" --jobs 1 --inline >/dev/null 2>&1
   vrc=$?
   "$PY" - "$vlog" "$B/valgrind_C20.json" "$vrc" "$ids" <<'PYSUM'
 import json,re,sys
@@ -62,4 +67,4 @@ print("valgrind: exit %s, error summary %s, %d report blocks with oxmpl_py frame
 PYSUM
   export VERIF_VALGRIND_SUMMARY="$B/valgrind_C20.json"
 fi
-exec "$ROOT/harness/target/release/oxverif" pyverify "$prop" "$scen" "$res" "$tier"
+exec "$BIN" pyverify "$prop" "$scen" "$res" "$tier"
